@@ -148,7 +148,8 @@ claim("C15",
 claim("C03",
       "Coq: the Go wire shapes (Sem/GoJson.v, validated against the real encoder) and the TypeScript environment with structural inhabitation (Sem/TsSem.v: exact keys, null only where allowed, tuple lengths, enum literal sets, Kind/Data unions); "
       "theorems = the induction steps 'conformance to the Go shape implies inhabitation of the TypeScript form', one per type former. The induction is closed by evaluation on every run: the real TypeScript file is parsed into an environment, compared declaration by declaration with the model, "
-      "checked closed and duplicate-free, and every document written by the real Go encoder for random values of every analysed type is checked in Coq to inhabit its declaration.",
+      "checked closed and duplicate-free, and every document written by the real Go encoder for random values of every analysed type is checked in Coq to inhabit its declaration. "
+      "The generator itself is modelled as a traversal (Model/TsGen.v: declarations emitted, order, identifiers, names declared and mentioned) with the theorem that every type name a declaration mentions is built in or declared by the list, recursive types included (Proofs/C03t.v); the model's list is compared with the list of the real generator declaration by declaration.",
       "Global theorem C03_documents_inhabit: under a decidable agreement table between the parsed TypeScript environment and the wire shapes (Sem/TsSim.v, computed on every run for every documented type), every conforming document of any size and depth inhabits its type. Relative to TsSem; no TypeScript compiler offline (syntactic validity = the reader understands the whole file). Trusted: the TypeScript reader, the test binary driver.",
       "Coq proof (global inhabitation theorem under a computed agreement premise + per-former lemmas) + parsed-declaration correspondence + inhabitation of every real document evaluated in Coq", "DESIGN.md §5 C03")
 
